@@ -1,13 +1,13 @@
 package spec
 
 type C18Case struct {
-	Proto  string   `json:"proto"`  // netrpc | grpc | grpcmux
-	TLS    string   `json:"tls"`    // none | auto
-	Launch string   `json:"launch"` // cmd | runner
-	Steps  []string `json:"steps"`  // dispense | call | h2p (plugin accepts, host dials) | p2h (host accepts, plugin dials) | stdio
-	ExitMs int      `json:"exitMs"` // plugin cleanup duration after the shutdown request
-	KillRacesAccepts bool `json:"killRacesAccepts"` // (gRPC, no mux) eight host goroutines keep calling broker.Accept(NextId()) while Kill runs
-	KeepConns bool  `json:"keepConns"` // brokered connections the host dialled are still open when Kill is called
+	Proto            string   `json:"proto"`            // netrpc | grpc | grpcmux
+	TLS              string   `json:"tls"`              // none | auto
+	Launch           string   `json:"launch"`           // cmd | runner
+	Steps            []string `json:"steps"`            // dispense | call | h2p (plugin accepts, host dials) | p2h (host accepts, plugin dials) | stdio
+	ExitMs           int      `json:"exitMs"`           // plugin cleanup duration after the shutdown request
+	KillRacesAccepts bool     `json:"killRacesAccepts"` // (gRPC, no mux) eight host goroutines keep calling broker.Accept(NextId()) while Kill runs
+	KeepConns        bool     `json:"keepConns"`        // brokered connections the host dialled are still open when Kill is called
 }
 
 type C18Obs struct {
@@ -18,8 +18,8 @@ type C18Obs struct {
 	PluginDirLeft []string `json:"pluginDirLeft"`
 	HostDirLeft   []string `json:"hostDirLeft"`
 	HostTmpLeft   []string `json:"hostTmpLeft"` // plugin* sockets that appeared in the host's own TMPDIR during the case and are still there
-	GoBefore      int      `json:"goBefore"` // goroutines with go-plugin frames before the case
-	GoAfter       int      `json:"goAfter"`  // ... after Kill, polled up to 10 s
+	GoBefore      int      `json:"goBefore"`    // goroutines with go-plugin frames before the case
+	GoAfter       int      `json:"goAfter"`     // ... after Kill, polled up to 10 s
 	GoWaitMs      int64    `json:"goWaitMs"`
 	GoSample      string   `json:"goSample"`
 	TotalBefore   int      `json:"totalBefore"`
